@@ -24,20 +24,20 @@ var msgPieces = []string{
 
 var msgPlain = []string{"a", "b", "hello", "world", "x y", "0", "42", "é", "日本", "some text", "{\"k\": 1}"}
 
-// boundaryLen draws a length: small ones uniformly, and the neighbourhood of every power of two up to 8192
-// (fixed-size scratch buffers and chunked copies go wrong exactly there)
+// boundaryLen draws a length: small ones uniformly, and the neighbourhood of every power of two
+// up to 4096 (fixed-size scratch buffers and chunked copies go wrong exactly there)
 func boundaryLen(rng *rand.Rand) int {
 	switch rng.Intn(10) {
 	case 0, 1, 2, 3:
 		return rng.Intn(200)
 	case 4, 5, 6, 7:
-		n := (1 << (3 + rng.Intn(11))) + rng.Intn(17) - 8
+		n := (1 << (3 + rng.Intn(10))) + rng.Intn(17) - 8
 		if n < 0 {
 			n = 0
 		}
 		return n
 	}
-	return rng.Intn(5000)
+	return rng.Intn(2000)
 }
 
 // longRun is one long line (sometimes broken once), the shape short pieces never produce
@@ -55,7 +55,7 @@ func longRun(rng *rand.Rand) string {
 }
 
 func genPayload(rng *rand.Rand) string {
-	if rng.Intn(12) == 0 {
+	if rng.Intn(25) == 0 {
 		return longRun(rng)
 	}
 	switch rng.Intn(10) {
